@@ -45,6 +45,7 @@ class Accessor:
         self.id = None
         self.module = None
         self.scheme = (0, "LE")     # how the module spells the byte orders (ModuleSpec.scheme, .default)
+        self.req = None             # [requires]: conjunction [(op, constant), ...] over `this`
 
     @property
     def ut(self):
@@ -61,10 +62,12 @@ class Accessor:
 
     def describe(self):
         return dict(order=self.order, byte_offset=self.boff, container_bytes=self.c, path=self.path,
-                    kind=self.kind, width=self.w, enum=self.enum, cpp=self.cpp, scheme=list(self.scheme))
+                    kind=self.kind, width=self.w, enum=self.enum, cpp=self.cpp, scheme=list(self.scheme),
+                    requires=[list(c) for c in self.req] if self.req else None)
 
     def key(self):
-        return (self.order, self.boff, self.c, tuple(self.path), self.kind, self.w, self.enum)
+        return (self.order, self.boff, self.c, tuple(self.path), self.kind, self.w, self.enum,
+                tuple(map(tuple, self.req)) if self.req else None)
 
 
 # ----------------------------------------------------------------------------------------------
@@ -94,6 +97,29 @@ def field_range(acc):
     if s:
         return -(1 << (w - 1)), (1 << (w - 1)) - 1
     return 0, (1 << w) - 1
+
+
+_OPS = {"<": lambda a, b: a < b, "<=": lambda a, b: a <= b, ">": lambda a, b: a > b, ">=": lambda a, b: a >= b,
+        "==": lambda a, b: a == b, "!=": lambda a, b: a != b}
+
+
+def req_holds(req, v):
+    """a [requires] attribute: conjunction of comparisons of `this` with constants"""
+    return all(_OPS[op](v, k) for op, k in (req or ()))
+
+
+def enum_value_name(enum, k):
+    for n, s, b in ENUMS:
+        if n == enum:
+            names = {0: "ZERO", 1: "ONE", ((1 << (b - 1)) - 1 if s else (1 << b) - 1): "MOST_POS"}
+            if s:
+                names.update({-1: "NEG_ONE", -(1 << (b - 1)): "MOST_NEG"})
+            return "%s.%s" % (enum, names[k])
+    raise KeyError(enum)
+
+
+def req_text(req, enum=None):
+    return " && ".join("this %s %s" % (op, enum_value_name(enum, k) if enum else str(k)) for op, k in req)
 
 
 def spec_complete(acc, root):
@@ -144,7 +170,7 @@ def spec_encode(acc, v):
 def spec_write(acc, root, v):
     """(could_write, try_write, read_after, root_after)"""
     lo, hi = field_range(acc)
-    cw = lo <= v <= hi
+    cw = lo <= v <= hi and req_holds(acc.req, v)
     if not cw or not spec_complete(acc, root):
         return cw, False, None, list(root)
     cv = container_val(acc.order, root[acc.boff:acc.boff + acc.c])
@@ -175,10 +201,12 @@ class BitsType:
         self.name, self.size, self.lines = name, size_bits, []
         self.n = 0
 
-    def add(self, off, w, type_text):
+    def add(self, off, w, type_text, requires=None):
         self.n += 1
         nm = "f%d" % self.n
         self.lines.append("  %d [+%d]  %s  %s" % (off, w, type_text, nm))
+        if requires:
+            self.lines.append("    [requires: %s]" % requires)
         return nm
 
     def text(self):
@@ -213,11 +241,13 @@ class ModuleSpec:
         self.types.append(t)
         return t
 
-    def place(self, boff, c, order, type_text_):
+    def place(self, boff, c, order, type_text_, requires=None):
         """adds a field of Top; returns its accessor name"""
         self._nf += 1
         nm = "t%d" % self._nf
         self.top_lines.append("  %d [+%d]  %s  %s" % (boff, c, type_text_, nm))
+        if requires:
+            self.top_lines.append("    [requires: %s]" % requires)
         if self.scheme == 0:
             if order in ORDER_ATTR:
                 self.top_lines.append('    [byte_order: "%s"]' % ORDER_ATTR[order])
@@ -416,6 +446,9 @@ def field_patterns(acc, rng):
         else:
             pats += [0x7FF0000000000000, 0xFFF0000000000000, 0x7FF8000000000001, 0x7FF0000000000001,
                      0x8000000000000000, 1, 0x3FF0000000000000]
+    lo, hi = field_range(acc)
+    for op, k in (acc.req or ()):
+        pats += [spec_encode(acc, x) for x in (k - 1, k, k + 1) if lo <= x <= hi]
     return list(dict.fromkeys(pats))
 
 
@@ -460,6 +493,8 @@ def write_values(acc, rng):
                 rng.randint(lo, hi), rng.randint(tlo, thi), (1 << acc.w), (1 << acc.w) + rng.randint(0, 9)]
         if acc.kind == "bcd":
             cand += [9, 10, 99, 100, hi // 2, 256, 256 + 5, 65536 + 7, (1 << 32) + 3]
+        for op, k in (acc.req or ()):
+            cand += [k - 1, k, k + 1]
         vals = [v for v in dict.fromkeys(cand) if tlo <= v <= thi]
         out.append((t, vals))
     return out
@@ -697,22 +732,74 @@ def build_custom(name, descs, opt=True):
     for d in descs:
         c, path, kind, w, enum = d["container_bytes"], [tuple(x) for x in d["path"]], d["kind"], d["width"], d.get("enum")
         order, boff = d["order"], d["byte_offset"]
+        req = [tuple(x) for x in d["requires"]] if d.get("requires") else None
+        rq = req_text(req, enum if kind == "enum" else None) if req else None
         if not path:
-            top = m.place(boff, c, order, type_text(kind, enum))
-            m.add_accessor(Accessor(order, boff, c, [], kind, w, enum, "%s()" % top))
+            top = m.place(boff, c, order, type_text(kind, enum), requires=rq)
+            a = m.add_accessor(Accessor(order, boff, c, [], kind, w, enum, "%s()" % top))
         elif len(path) == 1:
             bt = m.new_bits(8 * c)
-            nm = bt.add(path[0][0], w, type_text(kind, enum))
+            nm = bt.add(path[0][0], w, type_text(kind, enum), requires=rq)
             top = m.place(boff, c, order, bt.name)
-            m.add_accessor(Accessor(order, boff, c, path, kind, w, enum, "%s().%s()" % (top, nm)))
+            a = m.add_accessor(Accessor(order, boff, c, path, kind, w, enum, "%s().%s()" % (top, nm)))
         else:
             inner = m.new_bits(path[0][1])
-            nm = inner.add(path[1][0], w, type_text(kind, enum))
+            nm = inner.add(path[1][0], w, type_text(kind, enum), requires=rq)
             outer = m.new_bits(8 * c)
             inm = outer.add(path[0][0], path[0][1], inner.name)
             top = m.place(boff, c, order, outer.name)
-            m.add_accessor(Accessor(order, boff, c, path, kind, w, enum, "%s().%s().%s()" % (top, inm, nm)))
+            a = m.add_accessor(Accessor(order, boff, c, path, kind, w, enum, "%s().%s().%s()" % (top, inm, nm)))
+        a.req = req
     return m
+
+
+def gen_requires(rng, kind, w, enum=None):
+    """a satisfiable [requires] over `this` for a field of that kind: 1..3 clauses out of < <= > >= != =="""
+    if kind == "enum":
+        s, b = [(s, b) for n, s, b in ENUMS if n == enum][0]
+        vals = [0, 1, (1 << (b - 1)) - 1 if s else (1 << b) - 1]
+        k = rng.choice([x for x in vals if x < (1 << w)] or [0])
+        return [(rng.choice(["==", "!="]), k)]
+    lo, hi = {"uint": (0, (1 << w) - 1), "int": (-(1 << (w - 1)), (1 << (w - 1)) - 1),
+              "bcd": (0, 10 ** (w // 4) * 2 ** (w % 4) - 1)}[kind]
+    shape = rng.randrange(6)
+    a, b = sorted([rng.randint(lo, hi), rng.randint(lo, hi)])
+    if shape == 0:
+        return [(rng.choice(["<", "<="]), b)]
+    if shape == 1:
+        return [(rng.choice([">", ">="]), a)]
+    if shape == 2:
+        return [(rng.choice([">", ">="]), a), (rng.choice(["<", "<="]), b)] if a + 1 < b else [("<=", b)]
+    if shape == 3:
+        return [("!=", a)]
+    if shape == 4:
+        return [("==", a)]
+    return [(">=", a), ("!=", (a + b) // 2), ("<=", b)] if a + 2 < b else [(">=", a)]
+
+
+def build_requires_plan(rng, thorough=False):
+    """modules whose physical scalar fields (struct level and inside bits) carry [requires: ...]"""
+    n_mod = 12 if thorough else 3
+    per = 40 if thorough else 28
+    mods = []
+    for mi in range(n_mod):
+        descs = []
+        for j in range(per):
+            c = rng.randint(1, 8)
+            kind = ["uint", "int", "bcd", "enum"][(mi + j) % 4]
+            enum = None
+            order = rng.choice(["LE", "BE"])
+            if j % 3 == 0:          # directly in the struct
+                w, path = 8 * c, []
+            else:
+                w = rng.randint(2 if kind != "bcd" else 4, 8 * c)
+                path = [(rng.randint(0, 8 * c - w), w)]
+            if kind == "enum":
+                enum = enum_for(w, False, rng.randrange(8))
+            descs.append(dict(order=order, byte_offset=rng.randrange(4), container_bytes=c, path=path, kind=kind, width=w,
+                              enum=enum, requires=gen_requires(rng, kind, w, enum), scheme=[0, "LE"]))
+        mods.append(build_custom("q%d" % mi, descs, opt=(mi % 3 != 2)))
+    return mods
 
 
 # ----------------------------------------------------------------------------------------------
@@ -771,6 +858,7 @@ def check_read(acc, root, o):
                     "field bytes absent, but IsComplete()=%d Ok()=%d, %d CHECK failure(s)" % (o["cpl"], o["ok"], o["chk"]), exp)
         return None
     ok, val = spec_decode(acc, spec_raw(acc, root))
+    ok = ok and req_holds(acc.req, val)
     exp.update(ok=ok, value=val, min_bits=need_bits, signed=need_signed)
     if o["chk"]:
         return read_key(acc, root, o, "check"), "EMBOSS_CHECK failed on a complete field", exp
@@ -955,3 +1043,47 @@ def coq_expr(e, ids):
         return "ELogical"
     f = {"ADDITION": "FAdd", "SUBTRACTION": "FSub"}.get(e[1]) or "(FOther %d)" % (sum(ord(c) for c in e[1]))
     return "(EFn %s [%s])" % (f, "; ".join(coq_expr(a, ids) for a in e[2]))
+
+
+# ----------------------------------------------------------------------------------------------
+# [requires] on writable virtual fields (alias and +/- chains) and on their backing fields
+# ----------------------------------------------------------------------------------------------
+
+def virtual_requires_module(name, rng, n=10):
+    """returns (text, backing {field: Accessor with .req}, virtuals [(name, VExpr, own_req or None)])"""
+    backing = {
+        "x": Accessor("LE", 0, 1, [], "uint", 8),
+        "z": Accessor("LE", 1, 2, [], "int", 16),
+        "u": Accessor("BE", 3, 4, [], "uint", 32),
+        "n": Accessor("LE", 7, 2, [(0, 12)], "uint", 12),        # inside an anonymous bits
+        "d": Accessor("LE", 9, 1, [], "bcd", 8),
+    }
+    for f, acc in backing.items():
+        if rng.random() < 0.5:
+            acc.req = gen_requires(rng, acc.kind, acc.w)
+    def rq(acc, indent):
+        return ["%s[requires: %s]" % (indent, req_text(acc.req))] if acc.req else []
+    lines = ['[$default byte_order: "LittleEndian"]', '[(cpp) namespace: "%s"]' % name, "struct Top:",
+             "  0 [+1]  UInt  x"] + rq(backing["x"], "    ") + \
+            ["  1 [+2]  Int  z"] + rq(backing["z"], "    ") + \
+            ["  3 [+4]  UInt  u", '    [byte_order: "BigEndian"]'] + rq(backing["u"], "    ") + \
+            ["  7 [+2]  bits:", "    0 [+12]  UInt  n"] + rq(backing["n"], "      ") + ["    12 [+4]  UInt  pad"] + \
+            ["  9 [+1]  Bcd  d"] + rq(backing["d"], "    ")
+    vs = []
+    for i in range(n):
+        f = rng.choice(["x", "x", "z", "z", "u", "n", "n", "d"])
+        e = gen_chain(rng, f, rng.randint(0, 3))
+        lo, hi = field_range(backing[f])
+        own = None
+        if i % 4 != 3:              # three out of four carry their own requirement
+            ks = sorted(e.a * rng.randint(lo, hi) + e.b for _ in range(2))
+            shape = rng.randrange(5)
+            own = [[(rng.choice(["<", "<="]), ks[1])], [(rng.choice([">", ">="]), ks[0])],
+                   [(">=", ks[0]), ("<", ks[1])] if ks[0] < ks[1] else [("<=", ks[1])],
+                   [("!=", ks[0])], [("!=", ks[0]), ("<=", ks[1])]][shape]
+        vs.append(("y%d" % i, e, own))
+    for nm, e, own in vs:
+        lines.append("  let %s = %s" % (nm, e.text))
+        if own:
+            lines.append("    [requires: %s]" % req_text(own))
+    return "\n".join(lines) + "\n", backing, vs
